@@ -599,6 +599,12 @@ func runFED09(r *core.Run) {
 		if strings.Contains(op.Query, "$v") && W.Prob(0.6) {
 			pool = append(pool, renameVars(op))
 		}
+		if (strings.Contains(op.Vars, ":true") || strings.Contains(op.Vars, ":false")) && W.Prob(0.7) {
+			// same text, flipped @skip/@include variable values: the normalised operation (and the
+			// plan) differs although the request bytes before the variables are identical
+			flipped := strings.NewReplacer(":true", ":false", ":false", ":true").Replace(op.Vars)
+			pool = append(pool, &fedOp{Query: op.Query, Vars: flipped, Name: op.Name})
+		}
 		if strings.Contains(op.Vars, `"1"`) && W.Prob(0.5) {
 			// same operation, different variable values
 			pool = append(pool, &fedOp{Query: op.Query, Vars: strings.ReplaceAll(op.Vars, `"1"`, `"2"`), Name: op.Name})
